@@ -203,8 +203,15 @@ def main(argv):
     # (also when a function had to be extracted without some of its proof hints: its proof may have gone through, but the
     # code was restructured, which is when a bounded second look is cheap insurance)
     degraded = any(rw.get('rule') == 'DEGRADED' for rw in rewrites)
-    if probes and (tier == 'thorough' or violations or undecided or degraded):
+    # The quick tier always runs the property's light probes (seconds each, once the probe crate is built for the tree): they look
+    # at the real crates from outside and so also see code the contracts treat as trusted (third-party calls behind shims,
+    # trait-object dispatch, comparison operators of small types). The two heavy ones wait for the thorough tier or for a reason.
+    HEAVY = ('b7_text_no_panic', 'b10_client_outcomes')
+    full = tier == 'thorough' or bool(violations) or bool(undecided) or degraded
+    if probes:
         for pb in probes:
+            if not full and pb in HEAVY:
+                continue
             found, out = run_probe(pb)
             probe_results.append({'probe': pb, 'found_failing_input': found, 'output': out[-1500:]})
 
